@@ -104,6 +104,7 @@ type Explorer struct {
 	opaque     map[string]int
 	assertQueries, assertUnsat int64
 	retried    int64
+	crossDone, crossAgree, crossDisagree, crossUnknown int
 }
 
 type ExploreOpts struct {
